@@ -55,7 +55,7 @@ var Controls = []Control{
 	{"C05", "decoder result returned unchecked", "errbase/decode.go", `genErr := decoder\(ctx, cause, enc\.Message, enc\.Details\.ReportablePayload, payload\)\n\t\tif genErr != nil \{`, "genErr := decoder(ctx, cause, enc.Message, enc.Details.ReportablePayload, payload)\n\t\tif true {", "R-DECODE-NONNIL"},
 	// C06
 	{"C06", "redactable %q accepted", "errbase/format_error.go", `\(!redactableOutput && \(verb == 'x' \|\| verb == 'X' \|\| verb == 'q'\)\)`, `(verb == 'x' || verb == 'X' || verb == 'q')`, "R-VERB-DISPATCH"},
-	{"C06", "zero precision ignored", "errbase/format_error.go", `_, okP := p\.Precision\(\)`, "prec, okP0 := p.Precision()\n\tokP := okP0 \\&\\& prec > 0", "R-VERB-DISPATCH"},
+	{"C06", "zero precision ignored", "errbase/format_error.go", `_, okP := p\.Precision\(\)`, "prec, okP0 := p.Precision()\n\tokP := okP0 && prec > 0", "R-VERB-DISPATCH"},
 	{"C06", "plain string relabelled redactable", "errutil/message.go", `prefix: redact\.Sprint\(redact\.Safe\(message\)\),`, `prefix: redact.RedactableString(message),`, "R-TAINT/redactable"},
 	// C07
 	{"C07", "barrier answers Is", "barriers/barriers.go", `func \(e \*barrierErr\) Error\(\) string \{ return e\.smsg\.StripMarkers\(\) \}`, "func (e *barrierErr) Error() string { return e.smsg.StripMarkers() }\nfunc (e *barrierErr) Is(t error) bool { return e.maskedErr == t }", "R-HIDE"},
@@ -91,7 +91,7 @@ var Controls = []Control{
 	{"C13", "As ignores inner multi-cause nodes", "errutil/as.go", `errbase\.UnwrapMulti\(c\)`, `errbase.UnwrapMulti(err)`, "R-WALK-MULTI"},
 	{"C13", "report visitor skips branches", "report/report.go", `\tfor _, e := range errbase\.UnwrapMulti\(err\) \{\n\t\tvisitAllMulti\(e, f\)\n\t\}\n`, "", "R-WALK-MULTI"},
 	// C14
-	{"C14", "Is protocol misspelt", "markers/markers.go", `err\.\(interface\{ Is\(error\) bool \}\)`, `err.(interface{ IsErr(error) bool })`, "R-PROTOCOL"},
+	{"C14", "Is protocol misspelt", "markers/markers.go", `err\.\(interface\{ Is\(error\) bool \}\); ok && x\.Is\(reference\)`, `err.(interface{ IsErr(error) bool }); ok && x.IsErr(reference)`, "R-PROTOCOL"},
 	{"C14", "Unwrap deleted", "hintdetail/with_hint.go", `func \(w \*withHint\) Unwrap\(\) error     \{ return w\.cause \}\n`, "", "R-WRAP-DUAL"},
 	{"C14", "Cause forwards to UnwrapOnce", "errutil_api.go", `func Cause\(err error\) error \{ return errbase\.UnwrapAll\(err\) \}`, `func Cause(err error) error { return errbase.UnwrapOnce(err) }`, "R-FORWARD"},
 	// C15
